@@ -352,24 +352,28 @@ class Rot(_ModeMixin, DisjointUnionStrategy):
     def _t(self, c):
         return str.maketrans("".join(c.alphabet), self._image(c))
 
+    def _kid(self, c):
+        """(child, mapping). Mode word `canon`: the child's statistics are named canonically - the parent's names are
+        re-assigned in the order of the (relabelled) letters, so the parameter map can permute names used on both sides."""
+        t = self._t(c)
+        tr = [(n, l.translate(t), f) for n, l, f in c.params]
+        if "canon" in self.mode:
+            order = sorted(tr, key=lambda p: (p[1], p[2], p[0]))
+            names = sorted(n for n, _, _ in tr)
+            cp = tuple((names[i], l, f) for i, (_, l, f) in enumerate(order))
+            m = {n: names[i] for i, (n, _, _) in enumerate(order)}
+        else:
+            tmp = PW(c.prefix.translate(t), [], c.alphabet, c.just_prefix, tr)
+            cp, m = child_params(tmp, self.mode.replace("drop", "").replace("merge", ""), tmp.prefix)
+        return PW(c.prefix.translate(t), [p.translate(t) for p in c.patterns], c.alphabet, c.just_prefix, cp), m
+
     def decomposition_function(self, c):
         if isinstance(c, SW) or len(c.alphabet) < 2 or self._image(c) == "".join(c.alphabet):
             return None
-        t = self._t(c)
-        tmp = PW(c.prefix.translate(t), [p.translate(t) for p in c.patterns], c.alphabet, c.just_prefix,
-                 [(n, l.translate(t), f) for n, l, f in c.params])
-        cp, _ = child_params(tmp, self.mode.replace("drop", "").replace("merge", ""), tmp.prefix)
-        # child_params keeps the order of tmp.params (sorted by name), so names pair up positionally
-        return (PW(tmp.prefix, tmp.patterns, tmp.alphabet, tmp.just_prefix, cp),)
+        return (self._kid(c)[0],)
 
     def extra_parameters(self, c, children=None):
-        if children is None:
-            children = self.decomposition_function(c)
-        t = self._t(c)
-        tmp = sorted((n, l.translate(t), f) for n, l, f in c.params)
-        _, m = child_params(PW(c.prefix.translate(t), [], c.alphabet, c.just_prefix, tmp),
-                            self.mode.replace("drop", "").replace("merge", ""), c.prefix.translate(t))
-        return (m,)
+        return (self._kid(c)[1],)
 
     def is_two_way(self, comb_class):
         return self.two_way
